@@ -117,6 +117,8 @@ class _Arm:
         return self
 
 
+rule("C05.u", "the reported fill level contains start level, charge, discharge and inflow on every path: Storage.fill_level has no return "
+              "before the block that adds the accumulated inflow (a shortcut for 'nothing dispatched' would report a level without inflow)", floor=1)
 rule("C05.q", "reported fill level of a storage with a coarser frequency: a variable has one mapping row per fine step, each with its share of "
               "the variable as dispatch factor - the level is accumulated over *every* row, weighted with that factor (and the inflow enters every "
               "fine step); reduced to one row per variable the whole volume of a coarse step is booked at its first fine step", floor=2,
@@ -127,7 +129,7 @@ rule("C05.p", "the series reported for an asset (charge, discharge, internal var
               "+ efficiency x charge - discharge no longer gives the level)", floor=2, props=["C05", "C01"])
 
 
-@analysis("storage", ["C05.a", "C05.e", "C05.g", "C05.h", "C05.k", "C05.o", "C05.p", "C05.q"])
+@analysis("storage", ["C05.a", "C05.e", "C05.g", "C05.h", "C05.k", "C05.o", "C05.p", "C05.q", "C05.u"])
 def run(ctx):
     p = ctx.p
     sto = p.cls("Storage")
@@ -458,6 +460,24 @@ def run(ctx):
         if n_p == 0:
             ctx.ob("C05.p", xo, "report columns", None, "no column-wise filled report frame found")
 
+
+    # ================================================================= C05.u one way out of fill_level: after charge, discharge and inflow
+    flu = p.fn_opt("Storage.fill_level")
+    if flu is None:
+        ctx.ob("C05.u", "Storage", "fill_level", None, "Storage.fill_level not found")
+    else:
+        infl = [x for x in au.walk_stmts(flu.body) if isinstance(x, ast.If) and any(
+            isinstance(y, ast.Attribute) and y.attr == "inflow" and au.U(y.value) == "self" for y in ast.walk(x.test))]
+        rets = [x for x in au.walk_stmts(flu.body) if isinstance(x, ast.Return)]
+        if not infl:
+            ctx.ob("C05.u", flu, "returns come after the inflow term", None, "no `if self.inflow ...:` block found in Storage.fill_level")
+        else:
+            last = max(getattr(x, "end_lineno", x.lineno) for x in infl)
+            early = [r for r in rets if r.lineno < last and not any(r is y for b in infl for y in ast.walk(b))]
+            ctx.ob("C05.u", flu, "returns come after the inflow term", not early,
+                   "fill_level returns at %s before the accumulated inflow is added: on that path (an idle storage, an empty selection ...) the "
+                   "reported level stays at the start level while the level in the restrictions rises with the inflow (reported 10, physical 58 "
+                   "at the last step)" % "; ".join(p.where(r) for r in early[:3]), node=(early[0] if early else flu.node))
 
     # ================================================================= C05.q every row of a variable, weighted
     flq = p.fn_opt("Storage.fill_level")
